@@ -16,7 +16,7 @@ RULE = ('exhaustive enumeration of (N,d) with N<=Nmax, d<=dmax and C(N+d-1,d)<=b
         'itertools enumeration; increment() traces and binomial/factorial/pow/pos helpers against exact references; '
         'a class = (kind, N, d); non-trivial = N>=2 and d>=2 for Gamma identities')
 ASSUMPTIONS = ['Python integer / Fraction arithmetic is exact']
-BOUNDS = {'quick': (4, 4, 130), 'thorough': (7, 7, 260)}
+BOUNDS = {'quick': (6, 7, 60), 'thorough': (8, 10, 260)}
 EXHAUSTIVE = {'quick': True, 'thorough': True}
 
 
@@ -59,6 +59,9 @@ def _gamma(ctx, N, d):
                                                     'duplicates': len(got) - len(set(got))})
         return
     ctx.ok('multi_indices', ('mi', N, d))
+    g1, r1 = EI.generate_Gamma_and_rays(N, d)
+    if isinstance(g1, np.ndarray) and isinstance(r1, np.ndarray) and g1.flags.writeable and r1.flags.writeable:
+        g1 *= 3.0; r1 += 1.0            # what a caller may do with its own result; must not influence the next request
     Gamma, rays = EI.generate_Gamma_and_rays(N, d)
     Gamma = np.asarray(Gamma); rays = np.asarray(rays)
     NJ = len(want)
